@@ -697,6 +697,29 @@ fn replay_data_model_update(sc: &Value) -> Value {
            "reapply_refused": reapply_refused, "reapply_changes": reapply_changes, "id_changed": id_changed, "id_collision": false})
 }
 
+fn replay_bytes_decoder(sc: &Value) -> Value {
+    let bytes: Vec<u8> = sc["bytes"].as_array().unwrap().iter().map(|x| x.as_u64().unwrap() as u8).collect();
+    match sc["fn"].as_str().unwrap() {
+        "import_verifying_key" => {
+            let r = crate::security::import_verifying_key(&bytes);
+            json!({"status": "done", "result": if r.is_ok() {"Ok"} else {"Err"}})
+        }
+        "uid_from" => {
+            let r = crate::security::uid_from(bytes);
+            json!({"status": "done", "result": if r.is_ok() {"Ok"} else {"Err"}})
+        }
+        "verify_signature" => {
+            use crate::security::VerifyingKey;
+            let mut keys = Keys::new();
+            let vk = crate::security::import_verifying_key(&keys.vk("K1")).unwrap();
+            let msg: Vec<u8> = sc["msg"].as_array().map(|a| a.iter().map(|x| x.as_u64().unwrap() as u8).collect()).unwrap_or_default();
+            let r = vk.verify(&msg, &bytes);
+            json!({"status": "done", "result": if r.is_ok() {"Ok"} else {"Err"}})
+        }
+        other => json!({"status": "unknown-fn", "fn": other}),
+    }
+}
+
 pub fn dispatch(sc: &Value) -> Value {
     match sc["kind"].as_str().unwrap_or("") {
         "entity_mutation" => replay_entity_mutation(sc),
@@ -704,6 +727,7 @@ pub fn dispatch(sc: &Value) -> Value {
         "validate_node" => replay_validate_node(sc),
         "c12_mutation" => replay_c12_mutation(sc),
         "daily_marks" => replay_daily_marks(sc),
+        "bytes_decoder" => replay_bytes_decoder(sc),
         "data_model_update" => replay_data_model_update(sc),
         "c12_deletion" => replay_c12_deletion(sc),
         "validate_deletions_remote" => replay_validate_deletions_remote(sc),
